@@ -77,6 +77,12 @@ def cases(tier, seed):
     d.update(geos[2])
     d.update({"fields": ["temp", "density", "Z"], "layout": [None, scope.layouts(3, 'idrev')[-1], None], "payload": "coded", "seed": seed, "levelprefix": "Lev_"})
     out.append({"desc": d, "schedules": False, "w": 4})
+    # cell sizes printed with 12 significant digits (a third of a unit: 0.333333333333, 0.166666666667, 0.0833333333333)
+    for mi_ in (1, 2):
+        d = dict(scope.named_meshes(2)[mi_])
+        d.update({"origin": [0.0, -1.0], "dx0": [1.0 / 3.0, 1.0 / 3.0], "dx_digits": 12})
+        d.update({"fields": ["temp", "density", "Z"], "layout": [scope.layouts(len(b), 'idrev')[-1] for b in d["levels"]], "payload": "coded", "seed": seed})
+        out.append({"desc": d, "schedules": False, "w": 4, "coord_rtol": 1e-9})
     # field names that differ only by letter case
     d = dict(scope.named_meshes(2)[1])
     d.update(geos[1])
@@ -147,8 +153,8 @@ def run_case(case, workdir):
                         g = val.get("grid_level")
                         if g is None or np.shape(g) != lvl.T.shape or not np.array_equal(np.asarray(g), lvl.T):
                             rec.fail("grid_level", sub, "grid_level is not the level map")
-                    if not (np.shape(val["x"]) == ex.shape and np.allclose(val["x"], ex, rtol=1e-12, atol=1e-12 * ref.dx[L][0])
-                            and np.shape(val["y"]) == ey.shape and np.allclose(val["y"], ey, rtol=1e-12, atol=1e-12 * ref.dx[L][1])):
+                    if not (np.shape(val["x"]) == ex.shape and np.allclose(val["x"], ex, rtol=case.get("coord_rtol", 1e-12), atol=case.get("coord_rtol", 1e-12) * ref.dx[L][0])
+                            and np.shape(val["y"]) == ey.shape and np.allclose(val["y"], ey, rtol=case.get("coord_rtol", 1e-12), atol=case.get("coord_rtol", 1e-12) * ref.dx[L][1])):
                         rec.fail("coordinates", sub, "x/y are not the cell centres of the grid")
                     rec.outcome(h64([dh, fl, limit, [zlib_crc(val.get(n)) for n in want]]))
     # the command line entry point, array format: the .npz must hold the covering grid
@@ -203,7 +209,7 @@ def run_case(case, workdir):
                 ex_ = ref.geo_lo[0] + (np.arange(ref.domain[-1][0]) + 0.5) * ref.dx[-1][0]
                 ey_ = ref.geo_lo[1] + (np.arange(ref.domain[-1][1]) + 0.5) * ref.dx[-1][1]
                 if not all(bits_equal(r[nm], cov[..., names.index(nm)].T) for nm in names) or not np.array_equal(np.asarray(r["grid_level"]), lvl.T) \
-                        or not (np.allclose(r["x"], ex_, rtol=1e-12, atol=0) and np.allclose(r["y"], ey_, rtol=1e-12, atol=0)):
+                        or not (np.allclose(r["x"], ex_, rtol=case.get("coord_rtol", 1e-12), atol=case.get("coord_rtol", 0) * ref.dx[-1][0]) and np.allclose(r["y"], ey_, rtol=case.get("coord_rtol", 1e-12), atol=case.get("coord_rtol", 0) * ref.dx[-1][1])):
                     rec.fail("history_dependent", dict(sub, call=k), "call %d on the same object differs from the covering grid / its coordinates "
                              "(the caller changed the arrays of the earlier calls in place)" % k)
     # history on ONE Mandoline object: a call that FAILS part-way (a binary file of the finest level is not there yet), then the
